@@ -55,6 +55,13 @@ CLAIMED["C08"] = {
     "design": "4/C08",
 }
 
+CLAIMED["C09"] = {
+    "text": "Lean theorems over the working-directory model: the recipe cwd decision equals the documented rule on every combination; absolute attribute wins; relative attribute resolves against the setting-adjusted module directory; [no-cd] = invocation directory; backticks ignore attribute and [no-cd]; for ANY nesting of imports and modules the module directory is that of the last `mod` edge (imports inherit the importer's); --working-directory affects the root module only; directory functions are independent of module, setting and flags; source_directory() is the directory of the file containing the call. Correspondence: the product layout space (5 file positions x settings x flags x invocation directories x attribute x [no-cd] x linewise/shebang x direct/dependency; sampled in quick, complete in thorough) run against the binary; cwd of lines, scripts, interpolation and module-level backticks and the three directory functions compared with the statement and the model.",
+    "note": "Trusted: Lean kernel; Workdir model (tied by the differential run); paths compared after realpath (symlinks / lexiclean are the OS's / a crate's); cwd observed through the logging shell.",
+    "technique": "Lean 4 proof + product-space differential against the binary",
+    "design": "4/C09",
+}
+
 PENDING = "check not built yet in this session (see DESIGN.md build order); no claim is made"
 
 
